@@ -26,9 +26,9 @@ from harness.gnpy_util import NONE
 BOUNDS = {
     # tier -> list of MC runs (MaxSpans, LossSet, MultiUser, Rich, replay stride for profiles with >1 span)
     'quick': [dict(max_spans=2, losses='MCLossesQuick', multi=False, rich=True, stride1=3, stride2=14, propagate_every=2)],
-    'thorough': [dict(max_spans=3, losses='MCLossesQuick', multi=False, rich=True, stride1=1, stride2=1),
-                 dict(max_spans=2, losses='MCLossesFull', multi=False, rich=False, stride1=1, stride2=1),
-                 dict(max_spans=1, losses='MCLossesFull', multi=True, rich=False, stride1=1, stride2=1)],
+    'thorough': [dict(max_spans=3, losses='MCLossesQuick', multi=False, rich=True, stride1=1, stride2=6, propagate_every=3),
+                 dict(max_spans=2, losses='MCLossesFull', multi=False, rich=False, stride1=1, stride2=2, propagate_every=3),
+                 dict(max_spans=1, losses='MCLossesFull', multi=True, rich=False, stride1=2, stride2=1, propagate_every=3)],
 }
 TOL = 3            # micro-dB, B2 equality of a designed setting with TLC's expectation
 CLAUSES = ['Closure', 'RefChannelAtTarget', 'PowerRule', 'ZeroBeforeRoadm', 'ReductionOnlyAsNeeded',
@@ -154,9 +154,9 @@ def report_b2(mism, verdicts, chk):
         v = verdicts.get(m['name'], [])
         clauses = sorted({c for step, c in v if step == k + 1}) or sorted({c for _, c in v})
         mode = 'power' if cfg['mode'] == 1 else 'gain'
-        if m['att']:
+        if m['att'] and oms['amps'][k]['kind'] != 9:
             sig = f'B2|{mode}|operator-att_in-on-padded-span'
-        else:
+        else:       # kind 9 (saturating operator gain behind an input VOA) keeps its own signature on att profiles too
             sig = f'B2|{mode}|kind={oms["amps"][k]["kind"]}|{"+".join(clauses) or "+".join(m["fields"])}'
         chk.violation(sig, dict(m, position=pos_of(oms, k), clauses_named_by_TLC=clauses))
 
@@ -200,6 +200,26 @@ def judge(traces, ctxs, chk, tag, verdict_map=None):
                                         amplifier=(c.get('amps') or [{}])[step - 1] if step >= 1 else None,
                                         roadm=t['rd'] if 'Roadm' in clause else None))
     return ok
+
+
+def measured_deviations(traces):
+    """worst residuals on the recorded designs, in micro-dB, for the evidence (the verdicts are TLC's): Closure residual
+    over judged amplifiers; overshoot of the propagated signal above the target and of the target above the
+    propagated total power"""
+    clo = over = under = 0
+    for t in traces:
+        prev = t['t0']
+        for e in t['ev']:
+            if e['jc']:
+                r = abs(e['gain'] - (e['L'] + e['dev'] + e['inVoa'] + e['dp'] - prev))
+                clo = max(clo, r if r < 1000 else 0)             # genuine violations are not "noise"
+            if e['tot'] != NONE:
+                tgt = t['pref'] + e['dp'] - e['voa']
+                o, u = e['sig'] - tgt, tgt - e['tot']
+                over = max(over, o if o < 1000 else 0)
+                under = max(under, u if u < 1000 else 0)
+            prev = e['dp'] - e['voa']
+    return dict(closure_residual=clo, signal_above_target=over, target_above_total=under)
 
 
 def selfcheck_monitor(traces, chk):
@@ -247,6 +267,9 @@ def run_b3(chk):
         for mode in (True, False):
             try:
                 net, eq, ref, rec = U.design(topo, eqf, extra, power_mode=mode)
+            except U.LoadError as e:
+                chk.cov.setdefault('b3_not_loadable', []).append(f'{name}: {str(e)[:80]}')
+                continue
             except Exception as e:                                           # noqa
                 chk.violation(f'B3|{name}|design-exception|{type(e).__name__}',
                               dict(network=name, power_mode=mode, exception=f'{type(e).__name__}: {e}'))
@@ -354,6 +377,11 @@ def run(chk):
     b3 = run_b3(chk)
     selfcheck_monitor(b3 + b2_traces, chk)
     chk.cov['tolerance_trace_udb'] = dict(TolEq=10, TolRep=100, TieZone=1000)
+    chk.cov['worst_deviation_trace_udb'] = measured_deviations(b3 + b2_traces)
+    chk.cov['rule'] = ('B2: one case = one (configuration, OMS profile) design emitted by TLC (mode x range x slope x ROADM '
+                       'target x span losses x operator settings per amplifier), distinct by that key, all non-trivial '
+                       '(the design of >= 2 amplifiers is compared with the model); B3: one case = one OMS x design band of '
+                       'a real designed network, non-trivial when it holds at least one amplifier')
     chk.assume('delta_power_range step is 0 (0.01 dB resolution) or a multiple of 0.1 dB; range lower bound <= upper bound')
     chk.assume('the rule is judged where the amplifier is followed by a span or by the egress ROADM (amplifier directly '
                'followed by an amplifier / transceiver: Closure and limits only); spans holding a RamanFiber: rule and '
